@@ -7,6 +7,7 @@ mod c07;
 mod c09;
 mod c10;
 mod c14;
+mod c16;
 mod c18;
 mod c19;
 mod c21;
@@ -33,6 +34,7 @@ fn main() {
         "c09" => c09::main(&args),
         "c10" => c10::main(&args),
         "c14" => c14::main(&args),
+        "c16" => c16::main(&args),
         "c18" => c18::main(&args),
         "c19" => c19::main(&args),
         "c21" => c21::main(&args),
